@@ -20,6 +20,7 @@ MANIFEST = {
             "body; a newly opened session is told the registered resources again (former finding C19-rm-reannounce).",
     "technique": "Coq proof over an executable nondeterministic model + differential correspondence (membership in the model's candidate set, vm_compute)",
 }
+TABLES = [("getxid", "GetXidTable.v")]
 PROP_FILE = "Props/P_C19.v"
 REQUIRES = "From SeataV Require Import Props.P_C19."
 TRUSTED = vlib.TRUSTED_COMMON + [
@@ -72,7 +73,8 @@ def ccase_term(c):
     for e in c["events"]:
         k = e["k"]
         addr = coq_hex(hexs(e.get("addr", "")))
-        ce = {"resource": "(CRegisterResource %d %s)" % (e.get("bt", 0), coq_hex(hexs(e.get("res", "")))),
+        ce = {"resource": "(CRegisterResource %d %s %s)" % (e.get("bt", 0), coq_hex(hexs(e.get("res", ""))),
+                                                               "false" if e.get("send_fail") else "true"),
               "lost": "(CConnLost %s)" % ("true" if e.get("by_peer") else "false"),
               "reconnect": "(CReconnect %s %s)" % (addr, "false" if e.get("write_fail") else "true")}[k]
         evs.append("(%s, {| co_sent := %s; co_addr := %s; co_per := %d; co_all := %d; co_open := %s |})" % (
@@ -125,6 +127,7 @@ def readable(h, upto):
 def run(chk, only=None, seed=None):
     quick = chk.tier == "quick"
     seed = chk.seed if seed is None else seed
+    table = vlib.run_xlate("getxid", "GetXidTable.v")
     proof = vlib.proof_step(chk, PROP_FILE, REQUIRES)
     ok_cases, out_cases = vlib.coq_make(["Remoting/LbCases.vo"])
     if not ok_cases:
@@ -215,6 +218,13 @@ def run(chk, only=None, seed=None):
                 5: "whether the session is still open"}.get(codes[0] % 10, "the observations")
         chk.violation("correspondence broke: %s at event %d of the client history differ from the model's cstep" % (what, at),
                       {"client_history": client[i]["events"][:at + 1], "correspondence": "Remoting/LbCases.v ctrack", "seed": seed}, False)
+    # the translator's list of xid-carrying client messages against the one found at run time
+    m = re.search(r"go_xid_messages : list string := \[(.*?)\]\.", open(table).read())
+    static_types = sorted(re.findall(r'"([^"]+)"', m.group(1))) if m else []
+    dynamic_types = sorted(f[9:] for h in (data.get("integrated") or []) for f in (h.get("feat") or []) if f.startswith("xid-type:"))
+    if data.get("integrated") and static_types != dynamic_types and not chk.violations:
+        chk.violation("the message types with an Xid field read from the source (%s) differ from those found through the codec registry (%s)"
+                      % (static_types, dynamic_types), {"translator": "tools/xlate getxid", "static": static_types, "dynamic": dynamic_types}, False)
     if not proof["ok"] and not chk.violations:
         chk.violation("a proof obligation of C19 no longer checks", {"theorem": PROP_FILE, "coq_output": proof["out"][-1500:]}, False)
 
@@ -252,7 +262,9 @@ def run(chk, only=None, seed=None):
                 "(register resource / connection lost / reconnect) compared with the model (%d); non-trivial = a selection over a "
                 "non-empty registry, distinct by (policy, xid, registry snapshot), plus reconnects observed (%d)" % (nsel, cev, recon),
         "traces_validated_against_impl": len(hist) - len(corr) - n_oracle + (len(client) - len(ccorr)),
-        "histories": len(hist), "selections_through_the_integrated_path": n_integrated, "selections_per_policy": per_policy, "selection_outcomes": outcomes,
+        "histories": len(hist), "selections_through_the_integrated_path": n_integrated,
+        "xid_carrying_message_types_sent": sorted(f[9:] for h in (data.get("integrated") or []) for f in (h.get("feat") or []) if f.startswith("xid-type:")),
+        "registrations_whose_first_announcement_failed": sum(1 for c in client for e in c["events"] if e.get("send_fail")), "selections_per_policy": per_policy, "selection_outcomes": outcomes,
         "consistent_hash_selections_after_a_ring_member_closed": stale_ring,
         "reconnects_observed": recon, "reconnects_in_clean_stream": recon_clean, "reconnects_in_finding_stream": recon - recon_clean,
         "direct_oracle_failures_selection": n_oracle, "model_mismatching_cases": len(mism),
